@@ -14,9 +14,19 @@ Space (bounded-exhaustive, enumerated completely inside the driver):
       (thorough: the same range sizes also starting at 500 and ending at 1023);
   bitmap length 0..9; ALL bitmaps for len <= 2; for len 3..9 every single bit, every
       prefix/suffix of ones, all-ones, both alternating patterns (thorough: every pair and,
-      up to len 8, every triple of bits; ALL 3-octet bitmaps for the range allocations of
-      size 0..65);
-  si4 in {0,1}; two initial mask backgrounds (clean / other flag bits incl. stale HOPP set).
+      up to len 8, every triple of bits; plus ALL 2^24 three-octet bitmaps for the allocations
+      3..m+2 with m in {1,8,9,16,17,23,24,25}, with and without ARFCN 0);
+  si4 in {0,1}; two initial mask backgrounds (clean / other flag bits incl. stale HOPP set):
+      all four (si4, background) combinations, except for the 65536 two-octet bitmaps and the
+      2^24 three-octet bitmaps, which run with (si4=0, clean) and (si4=1, noisy).
+
+A death of the driver (ASan/UBSan/signal) is a violation with the concrete input: the driver keeps
+the case it is executing and its counters in a MAP_SHARED progress file; the Python side records
+the case, restarts the driver at the next index (at most 40 deaths per allocation) and re-executes
+the dying process once with symbolization for the message.  replay() of such a case re-executes
+that same driver process (same enumeration and start index, hence same heap layout); the stack
+area the function uses is pre-filled with 0xA5 so that reads of uninitialised locals are
+deterministic as well.
 
 Oracle: reference decoder written from 3GPP TS 44.018 10.5.2.21 (bit i <-> i-th channel of
 the cell allocation ordered ascending with ARFCN 0 last; LSB of the LAST octet is bit 0; a
@@ -337,8 +347,12 @@ def write_specs(bdir, quick):
         full3 = os.path.join(bdir, "spec_full3.txt")
         sel = []
         for m in FULL3_SIZES:
-            sel.append(tuple(range(1, 1 + m)))
-            sel.append(tuple([0] + list(range(1, 1 + m))))
+            # ranges starting at ARFCN 3: none of them is in the main list, so every (allocation, bitmap)
+            # pair of the run stays distinct
+            sel.append(tuple(range(3, 3 + m)))
+            sel.append(tuple([0] + list(range(3, 3 + m))))
+        if set(sel) & set(ca for ca, _ in cas):
+            raise HarnessError("C20: full3 allocations overlap the main list")
         with open(full3, "w") as f:
             for ca in sel:
                 f.write("C %d %s\n" % (len(ca), " ".join(map(str, ca))))
